@@ -259,6 +259,7 @@ void Ctx::c04() {
     for (auto& o : s.ops) if (o.kind == OpKind::run && o.init_seq > last_boundary) { run_seq = o.init_seq; break; }
     for (auto& m : B.msgs) {
         if (m.session_lost || m.sends == 0 || m.created_seq < run_seq) continue;
+        if (m.emission_withheld) continue;      // an injected fault made the broker itself drop a (re)transmission: no lower bound
         // was some transmission completely delivered to the client?
         bool delivered = false;
         for (int si : m.publish_idx) if (B.sent[si].delivered_seq && !B.sent[si].hostile) delivered = true;
